@@ -1,6 +1,7 @@
 package props
 
 import (
+	"os/exec"
 	"crypto/sha256"
 	"encoding/json"
 	"fmt"
@@ -108,6 +109,9 @@ func init() {
 
 func c19Case(c *core.C) {
 	r := c.R
+	if !unprivPreflight(c) {
+		return
+	}
 	base, err := os.MkdirTemp(os.Getenv("VCHECK_SCRATCH"), "c19-")
 	if err != nil {
 		c.Violatef("harness-scratch", nil, "no scratch dir: %v", err)
@@ -147,6 +151,9 @@ func c19Case(c *core.C) {
 		return fmt.Sprintf("%q", id)
 	}
 	fail := func(sig, format string, a ...any) {
+		if strings.HasSuffix(sig, ":HARNESS") {
+			sig = "harness-child"
+		}
 		c.Violatef(sig, map[string]any{"history": trace, "directory_kind": dirKind}, "history %v: %s", trace, fmt.Sprintf(format, a...))
 	}
 	retrieveCheck := func(id string, want *sbom.Document, ctx string) bool {
@@ -252,7 +259,10 @@ func c19Case(c *core.C) {
 		c.Cover("op:store")
 		_, existed := model[id]
 		switch {
-		case o.kind == "DIED" || o.kind == "HARNESS":
+		case o.kind == "HARNESS":
+			fail("harness-child", "%s: %s", step, o.msg)
+			return
+		case o.kind == "DIED":
 			fail("store-process-died", "%s terminated the process: %s", step, o.msg)
 			return
 		case id == "":
@@ -446,6 +456,11 @@ func c19Case(c *core.C) {
 			}
 			// whatever happened, the entry must afterwards be retrievable or yield an error return, never an empty document
 			o := runChild(true, "retrieveone", "-dir", store, "-idfile", putFile([]byte(victim)))
+			if o.kind == "HARNESS" {
+				fail("harness-child", "%s: %s", ctx, o.msg)
+				restore()
+				return
+			}
 			if o.kind == "DIED" || o.kind == "NEITHER" || o.kind == "BOTH" || (o.kind == "DOC" && (proto.Size(o.doc) == 0 || !proto.Equal(o.doc, model[victim]))) {
 				fail("entry-damaged-by-io-error:"+which, "%s: afterwards Retrieve gives %s %s", ctx, o.kind, o.msg)
 				restore()
@@ -522,7 +537,11 @@ func c19InProcess(c *core.C, base, outer, store string, dirKind int) {
 	sb, _ := json.Marshal(script)
 	chownR(base)
 	cmd := childCmd(true, "storehist", "-dir", store, "-script", put(sb))
-	out, _ := cmd.CombinedOutput()
+	out, runErr := cmd.CombinedOutput()
+	if _, exited := runErr.(*exec.ExitError); runErr != nil && !exited {
+		c.Violatef("harness-child", nil, "in-process history child not started: %v", runErr)
+		return
+	}
 	c.Cover("in-process-histories")
 	if useSecond {
 		c.Cover("in-process-histories-with-two-instances")
